@@ -37,7 +37,7 @@ def s_ibm(draw, tier):
     ndeph = draw(st.integers(0, 1))
     deph = [{"g": draw(st.sampled_from([0.1, 0.5, 1.0])),
              "a": [draw(gens.cnum(1, 2)) for _ in range(d)]} for _ in range(ndeph)]
-    p = draw(tempogen.params_spec(d, tier))
+    p = draw(tempogen.params_spec(d, tier, long_runs=True))
     return {"d": d, "bath": b, "E": [draw(gens.grid(-2, 2, 4)) for _ in range(d)], "deph": deph,
             "rho0": draw(gens.dm_spec(d)), "par": p, "unique": draw(st.booleans()),
             "t0": draw(st.sampled_from([0.0, 0.0, 1.5]))}
@@ -88,12 +88,19 @@ def run_ibm(case):
     if R.lowest_power(sd) < 1 and T > 0:
         qterm += 5e-4 * abs(etas[-1]) * spread * max(spread, 2 * omax)
     dyn = oqupy.Tempo(system, bath, par, rho0, t0, unique=case["unique"]).compute(t_end, progress_type="silent")
-    out.check_close("tempo", np.array(dyn.states), ref, tempogen.trunc_tol(p, 100.0) + qterm, "TEMPO vs closed form")
+    # with a cut-off the truncated-memory closed form can grow (non-contractive cut-off dynamics): relative comparison
+    mag = max(1.0, float(np.abs(ref).max()))
+    if mag > 3.0:
+        out.label("cutoff-dynamics-grows")
+    if mag > 1e6:
+        out.inconclusive = True
+        return out
+    out.check_close("tempo", np.array(dyn.states), ref, (tempogen.trunc_tol(p, 100.0) + qterm) * mag, "TEMPO vs closed form")
     out.check_close("tempo/times", np.array(dyn.times), t0 + dt * np.arange(N + 1), 1e-12 * (abs(t0) + N * dt + 1))
     if N >= 2:
         pt = oqupy.pt_tempo_compute(bath, t0, t_end, par, unique=case["unique"], progress_type="silent")
         dyn2 = oqupy.compute_dynamics(system, rho0, process_tensor=pt, start_time=t0, progress_type="silent")
-        out.check_close("pt-tempo", np.array(dyn2.states), ref, tempogen.trunc_tol(p, 1000.0) + qterm,
+        out.check_close("pt-tempo", np.array(dyn2.states), ref, (tempogen.trunc_tol(p, 1000.0) + qterm) * mag,
                         "PT-TEMPO vs closed form")
     return out
 
